@@ -50,6 +50,10 @@ Layer(kind, x) ==
                             val |-> x, off |-> 0, dom |-> Len(x) >= 5]
     [] kind = "xmlhex" -> [enc |-> XmlEncodeHex(x), ty |-> "", obf |-> "unescape.xml", val |-> x, off |-> 0, dom |-> Len(x) >= 5]
     [] kind = "unescape" -> [enc |-> Call(UNESCAPE, SQ, PctAll(x)), ty |-> "string", obf |-> "function.unescape", val |-> x, off |-> 0, dom |-> x # <<>>]
+    [] kind = "unescapeP" ->      \* only the bytes that must be escaped are: % ' and everything outside printable ASCII; + / = and the rest stay literal
+         [enc |-> Call(UNESCAPE, SQ, Concat([i \in 1..Len(x) |-> IF x[i] = 37 \/ x[i] = SQ \/ x[i] < 32 \/ x[i] > 126
+                                                                   THEN <<37, HexUp(x[i] \div 16), HexUp(x[i] % 16)>> ELSE <<x[i]>>])),
+          ty |-> "string", obf |-> "function.unescape", val |-> x, off |-> 0, dom |-> x # <<>>]
     [] kind = "concat" -> [enc |-> <<SQ>> \o SubSeq(x, 1, Half(x)) \o <<SQ, 32, 43, 32, DQ>> \o SubSeq(x, Half(x) + 1, Len(x)) \o <<DQ>>,
                            ty |-> "string", obf |-> "concatenation", val |-> x, off |-> 0,
                            dom |-> CleanLit(x) /\ Len(x) >= 2 /\ ~BareOp(SubSeq(x, 1, Half(x))) /\ ~BareOp(SubSeq(x, Half(x) + 1, Len(x)))]
